@@ -26,6 +26,8 @@ fn backoff(name: &str, max: u32) -> BackoffStrategy {
     let b = match name {
         "linear" => BackoffStrategy::linear(),
         "exponential" => BackoffStrategy::exponential(2),
+        // factor 10 capped at one step: 10^(n-1) leaves u128 at the 40th attempt
+        "exp10-capped" => BackoffStrategy::exponential(10).with_max_duration(Duration::from_millis(STEP_MS)),
         _ => BackoffStrategy::constant(),
     };
     b.with_max_attempts(max).with_step(Duration::from_millis(STEP_MS))
@@ -896,6 +898,14 @@ fn cells(tier: &str) -> Vec<Value> {
             id += 1;
         }
     }
+    // a large budget with capped exponential delays: the 45th (60th) attempt is as good as the first
+    for (k, kind) in kinds.iter().enumerate() {
+        let fvs: Vec<Vec<u32>> = if thorough { vec![vec![45], vec![59], vec![60], vec![40, 41]] } else { vec![vec![[45u32, 59, 41, 39][k]]] };
+        for fv in fvs {
+            v.push(json!({"cell": id, "kind": kind, "items_before": 1, "outages": fv.len(), "failing_attempts_per_outage": fv, "failure": "retryable", "backoff": "exp10-capped", "max_attempts": 60}));
+            id += 1;
+        }
+    }
     // back-off delays that saturate: waiting is fine, panicking is not
     for kind in ["subscriber", "publisher"] {
         for step in ["u64-max-seconds", "duration-max", "exponential-saturating"] {
@@ -967,7 +977,7 @@ pub async fn run(tier: &str, replaying: bool) -> ! {
     finish(
         rep,
         outs,
-        "every cell of: stream kind {publisher, subscriber, requestor, replier} x items exchanged before the first cut {0,1(,2)} x number of successive outages 1..=max+2 x failing re-registration attempts per outage 0..=max x backoff {constant, linear, exponential(2)} (all three in thorough, rotating in quick) with step 5 ms x max attempts {1,2(,3)}, plus (thorough) every non-uniform vector of survivable failure counts over up to three outages, plus cells whose failing attempts fail because the fake server cuts the connection again while the client waits for the answer to its re-registration (instead of answering with an error frame), plus clients built with backoff_strategy() before keep_alive() (the configured budget must still apply), plus a silent outage of 6 s (the first dial of the recovery stays unanswered for more than 5 s; any number of attempts within the budget is accepted, the stream must work again), plus every protocol error code (0-8, 255) as the answer to the first re-registration: only replier-already-bound is retried, every other code is reported at once, plus back-off delays that saturate (step u64::MAX s, Duration::MAX, exponential overflowing): after an outage the subscriber / publisher may wait, must not panic and must not retry early, plus the requestor flow driven through a clone of the opened handle (same budget and delays expected), plus outages that start with a reset of the served stream (the client sees a stream-level error before the connection-level one), plus graceful outages (the fake server finishes the served stream cleanly, so the client sees the end of the stream rather than a read error, and then closes the connection), plus repliers whose re-registration is acknowledged and then refused with replier-already-bound and closed (what the real server does while the old binding exists; every acknowledged attempt ends one outage, so the replier must keep re-registering until served), plus publishers with 10 KiB fed but not flushed at the moment of the cut (the loss then surfaces in poll_ready), plus one unrecoverable-answer cell per (kind, max, items), plus silent outages (a UDP relay drops every packet for 2.6 s against a 1.5 s idle time-out, so the connection ends by time-out instead of by a close frame) per (kind, max), plus two clones of one requestor recovering one after the other with a request of the first in flight. Oracle per outage: the re-registration frame equals the original; the fake server counts exactly fails+1 attempts (max when all fail, 1 when unrecoverable) regardless of earlier outages; with fails<max the stream works again (published item reaches the fake server / pushed item is yielded / retried and fresh requests are answered / a request sent to the replier is replied to); with fails==max too-many-retries is reported on the operation that hit the outage or on the next one; an unrecoverable answer is reported immediately. non-trivial = at least two outages or at least one failing attempt",
+        "every cell of: stream kind {publisher, subscriber, requestor, replier} x items exchanged before the first cut {0,1(,2)} x number of successive outages 1..=max+2 x failing re-registration attempts per outage 0..=max x backoff {constant, linear, exponential(2)} (all three in thorough, rotating in quick) with step 5 ms x max attempts {1,2(,3)}, plus (thorough) every non-uniform vector of survivable failure counts over up to three outages, plus cells whose failing attempts fail because the fake server cuts the connection again while the client waits for the answer to its re-registration (instead of answering with an error frame), plus clients built with backoff_strategy() before keep_alive() (the configured budget must still apply), plus a silent outage of 6 s (the first dial of the recovery stays unanswered for more than 5 s; any number of attempts within the budget is accepted, the stream must work again), plus every protocol error code (0-8, 255) as the answer to the first re-registration: only replier-already-bound is retried, every other code is reported at once, plus a budget of 60 attempts with exponential(10) delays capped at one step and 39..59 (thorough also 60) failing attempts in an outage, plus back-off delays that saturate (step u64::MAX s, Duration::MAX, exponential overflowing): after an outage the subscriber / publisher may wait, must not panic and must not retry early, plus the requestor flow driven through a clone of the opened handle (same budget and delays expected), plus outages that start with a reset of the served stream (the client sees a stream-level error before the connection-level one), plus graceful outages (the fake server finishes the served stream cleanly, so the client sees the end of the stream rather than a read error, and then closes the connection), plus repliers whose re-registration is acknowledged and then refused with replier-already-bound and closed (what the real server does while the old binding exists; every acknowledged attempt ends one outage, so the replier must keep re-registering until served), plus publishers with 10 KiB fed but not flushed at the moment of the cut (the loss then surfaces in poll_ready), plus one unrecoverable-answer cell per (kind, max, items), plus silent outages (a UDP relay drops every packet for 2.6 s against a 1.5 s idle time-out, so the connection ends by time-out instead of by a close frame) per (kind, max), plus two clones of one requestor recovering one after the other with a request of the first in flight. Oracle per outage: the re-registration frame equals the original; the fake server counts exactly fails+1 attempts (max when all fail, 1 when unrecoverable) regardless of earlier outages; with fails<max the stream works again (published item reaches the fake server / pushed item is yielded / retried and fresh requests are answered / a request sent to the replier is replied to); with fails==max too-many-retries is reported on the operation that hit the outage or on the next one; an unrecoverable answer is reported immediately. non-trivial = at least two outages or at least one failing attempt",
         "fault sequences are enumerated exhaustively; scheduling inside tokio/quinn is not controlled",
         json!({"step_ms": STEP_MS}),
         replaying,
